@@ -36,6 +36,56 @@ def _match(rows, full):
     return ids
 
 
+class _Plateau:
+    """log-density with large groups of EQUAL values at distinct points: 0 inside the unit box, outside it the squared distance from the
+    box rounded to quarters (so the interval boundary of get_interval falls among ties)"""
+    def __call__(self, x):
+        x = np.asarray(x, dtype=float)
+        d2 = float(np.sum(np.clip(np.abs(x) - 1.0, 0.0, None) ** 2))
+        return -0.25 * np.ceil(4.0 * d2)
+
+
+def ties_part(ck, tier, events, ev_ident):
+    """get_interval on chains whose log-probabilities have TIES at the interval boundary: the same events, ranks with equal entries"""
+    from inference.mcmc.gibbs import GibbsChain, MetropolisChain
+    from inference.mcmc import PcaChain
+    post = _Plateau()
+    for cname, cls in (("GibbsChain", GibbsChain), ("MetropolisChain", MetropolisChain), ("PcaChain", PcaChain)):
+        ch = cls(posterior=post, start=np.array([0.3, -0.2]), widths=np.array([0.9, 0.9]), display_progress=False)
+        ch.rng = np.random.default_rng(seed() + 77)
+        for j, p_ in enumerate(getattr(ch, "params", []) or []):
+            p_.rng = np.random.default_rng(seed() * 31 + 78 + j)
+        for n in ((9, 16) if tier == "quick" else (9, 16, 23, 30)):
+            while ch.chain_length < n:
+                ch.take_step()
+            full = np.array(ch.get_sample(burn=0, thin=1), dtype=float)
+            fullp = np.array(ch.get_probabilities(burn=0, thin=1), dtype=float)
+            if len(np.unique(full, axis=0)) != len(full):
+                continue                                     # rows must be distinct for the look-up of returned rows
+            levels = sorted(set(fullp.tolist()))
+            rank = [levels.index(float(v)) for v in fullp]
+            for burn, thin in ((0, 1), (1, 1), (2, 2), (0, 3)):
+                for f8 in (1, 2, 3, 5, 6, 7):
+                    for m in (0, 2, 5):
+                        idn = {"class": cname, "n": n, "burn": burn, "thin": thin, "fraction": f8 / 8, "samples": m or None,
+                               "posterior": "plateau (tied log-probabilities)", "distinct_log_probabilities": len(levels)}
+                        ck.case(("int-ties", cname, n, burn, thin, f8, m))
+                        try:
+                            s2, p2 = ch.get_interval(interval=f8 / 8.0, burn=burn, thin=thin, samples=(m or None))
+                        except Exception as ex:
+                            ck.violation("get_interval raised", {**idn, "error": repr(ex)}, site=f"{cname}.get_interval")
+                            continue
+                        s2, p2 = np.asarray(s2), np.asarray(p2)
+                        ids2 = _match(s2, full) if s2.ndim == 2 else None
+                        # a returned log-probability belongs to its row when it is that row's stored value (-3: it is not)
+                        pids2 = ([ids2[i] if float(p2[i]) == float(fullp[ids2[i]]) else -3 for i in range(len(ids2))]
+                                 if (ids2 is not None and p2.ndim == 1 and len(p2) == len(ids2)) else None)
+                        events.append({"n": n, "burn": burn, "thin": thin, "f8": f8, "m": m, "rank": rank,
+                                       "ids": ids2 if ids2 is not None else [-1], "pids": pids2 if pids2 is not None else [-2], "ndim": int(s2.ndim)})
+                        ev_ident.append({**idn, "sample_shape": list(s2.shape), "probs_shape": list(p2.shape), "ids": ids2, "prob_ids": pids2,
+                                         "rank_levels": rank})
+
+
 def own_part(ck, tier):
     """rows are returned together with their OWN log-probabilities: the posterior is re-evaluated at every returned row"""
     from harness.c03 import GaussPost
@@ -253,6 +303,7 @@ def run(tier):
             n_now = int(ch.chain_length)
         ck.sample({"part": "readout", "class": cname, "example": {"n": maxn, "burn": 2, "thin": 3, "spec_ids": table[(maxn, 2, 3)]}})
     own_part(ck, tier)
+    ties_part(ck, tier, events, ev_ident)
     d = scratch("c14_")
     path = os.path.join(d, "trace.ndjson")
     with open(path, "w") as fh:
